@@ -40,6 +40,7 @@ class Sched(object):
         self.timeout = timeout
         self.dir, self.tests = _sigdir()
         self._inside = {}
+        self.trace = [[] for _ in range(self.n)]      # (file, line) of every point, per thread
 
     def inside(self, code):
         r = self._inside.get(code)
@@ -53,6 +54,7 @@ class Sched(object):
             if event == 'line':
                 self.points[tid] += 1
                 p = self.points[tid]
+                self.trace[tid].append((frame.f_code.co_filename, frame.f_lineno))
                 if self.probe is not None and self.probe(tid, p):
                     self.window_points[tid].append(p)
                 nxt = self.plan.get((tid, p))
